@@ -23,6 +23,8 @@ def child_env(extra: dict[str, str] | None = None) -> dict[str, str]:
     env = dict(os.environ)
     env["PYTHONHASHSEED"] = "0"
     pp = [ROOT, os.path.join(ROOT, ".deps")]
+    if env.get("VERIF_REPO"):
+        pp.insert(0, env["VERIF_REPO"])
     if env.get("PYTHONPATH"):
         pp.append(env["PYTHONPATH"])
     env["PYTHONPATH"] = os.pathsep.join(pp)
@@ -33,6 +35,8 @@ def child_env(extra: dict[str, str] | None = None) -> dict[str, str]:
 
 
 def ncpu() -> int:
+    if os.environ.get("VERIF_WORKERS"):
+        return max(1, int(os.environ["VERIF_WORKERS"]))
     try:
         return max(1, len(os.sched_getaffinity(0)))
     except AttributeError:
